@@ -29,7 +29,8 @@ def parseRange (f : String) : Range :=
 
 /-! `gate` programs: tokens separated by `;` — `P<n>` probe, `I` opens an if statement, `C<0|1>:<checks>` opens a
 clause (truth value, comma separated encoded constraint strings of its meson.version().version_compare call,
-empty = no such call), `E` opens the else block, `F` closes the statement. -/
+empty = no such call), `E` opens the else block, `F` closes the statement, `L1`/`L2` … `M` a foreach over one/two items, `Xb`/`Xc`/`Xd`
+break / continue / subdir_done(). -/
 
 instance : Inhabited GBlock := ⟨.nil⟩
 instance : Inhabited GClauses := ⟨.els .nil⟩
@@ -46,6 +47,16 @@ mutual
         let (cs, r1) := parseClauses rest
         let (b, r2) := parseBlock r1
         (.cons (.ifs cs) b, r2)
+      else if t == "Xb" || t == "Xc" || t == "Xd" then
+        let (b, r) := parseBlock rest
+        (.cons (.exit (if t == "Xb" then .brk else if t == "Xc" then .cont else .done)) b, r)
+      else if t == "L1" || t == "L2" then
+        let (body, r1) := parseBlock rest
+        let r1 := match r1 with
+          | "M" :: r => r
+          | r => r
+        let (b, r2) := parseBlock r1
+        (.cons (if t == "L1" then .loop1 body else .loop2 body) b, r2)
       else (.nil, ts)
   partial def parseClauses (ts : List String) : GClauses × List String :=
     match ts with
@@ -93,7 +104,8 @@ def handle (cmd : String) (fs : List String) : String :=
   | "gate", [pv, prog] =>
     let base := versionCheckToRange [decodeStr pv]
     let (b, _) := parseBlock ((prog.splitOn ";").filter (fun t => !t.isEmpty))
-    showLog (runBlock b base none).1
+    let r := runBlock b base none
+    showLog r.log ++ (match r.sig with | .done => "#done" | .none => "" | .brk => "#brk" | .cont => "#cont")
   | "gateh", [pv, prog] =>
     let base := versionCheckToRange [decodeStr pv]
     let (b, _) := parseBlock ((prog.splitOn ";").filter (fun t => !t.isEmpty))
